@@ -48,6 +48,25 @@ func genPlan(t *rapid.T, tune func(t *rapid.T, p *Plan)) Plan {
 	if p.NonVoting {
 		// 2 hosts = a single voting member plus a non-voting member
 		p.Hosts = 2 + vfhelp.PickN(t, "hostsnv", 3)
+	} else if vfhelp.Pick(t, "witness", 2) == 0 {
+		// 3 hosts = two full members plus a witness (the classic use), 4 = three plus a witness
+		p.Witness = true
+		p.Hosts = 3 + vfhelp.Pick(t, "hostsw", 1)
+	}
+	// non-default configurations
+	p.EntryCompress = vfhelp.Pick(t, "entrycompress", 2) == 0
+	p.SnapCompress = vfhelp.Pick(t, "snapcompress", 2) == 0
+	p.NoCheckQuorum = vfhelp.Pick(t, "nocheckquorum", 2) == 0
+	p.NotifyCommit = vfhelp.Pick(t, "notifycommit", 2) == 0
+	switch vfhelp.Pick(t, "pad", 2) {
+	case 0:
+		p.PadBytes = 40 + vfhelp.PickN(t, "padsmall", 200)
+	case 1:
+		p.PadBytes = 1500 + vfhelp.PickN(t, "padbig", 3000)
+	}
+	if vfhelp.Pick(t, "maxinmem", 2) == 0 {
+		// a handful of commands fit: the rate limiter engages as soon as a follower lags
+		p.MaxInMemBytes = uint64(2+vfhelp.PickN(t, "maxinmemk", 8)) * uint64(p.PadBytes+200)
 	}
 	switch vfhelp.Pick(t, "snap", 2) {
 	case 0:
@@ -147,6 +166,13 @@ func runE6(t *testing.T, prof e6Profile) {
 		} else {
 			labels = append(labels, "pebble")
 		}
+		for name, on := range map[string]bool{"cfg-witness": p.Witness, "cfg-nonvoting": p.NonVoting, "cfg-entry-compression": p.EntryCompress,
+			"cfg-snapshot-compression": p.SnapCompress, "cfg-no-checkquorum": p.NoCheckQuorum, "cfg-notify-commit": p.NotifyCommit,
+			"cfg-max-inmem-log-size": p.MaxInMemBytes > 0, "cfg-padded-commands": p.PadBytes > 0, "cfg-prevote": p.PreVote} {
+			if on {
+				labels = append(labels, name)
+			}
+		}
 		for k := range res.Flags {
 			labels = append(labels, k)
 		}
@@ -178,16 +204,17 @@ func runE6(t *testing.T, prof e6Profile) {
 
 // (a snapshot whose content is not the state at the index it is stamped with makes
 // acknowledged writes disappear or come back after a restart from it)
-var famE6C01 = set("linearizability-violated", "write-applied-twice", "replicas-applied-different-entries", "snapshot-content-not-at-snapshot-index", "installed-snapshot-content-not-at-snapshot-index")
+var famE6C01 = set("linearizability-violated", "write-applied-twice", "command-payload-altered", "replicas-applied-different-entries", "snapshot-content-not-at-snapshot-index", "installed-snapshot-content-not-at-snapshot-index")
 var famE6C04 = set("term-not-durable", "vote-not-durable", "ack-not-durable", "commit-advertised-before-durable",
 	"two-votes-one-term", "recovered-term-lower", "restart-failed", "restart-panics-commit-outside-log-range", "linearizability-violated", "completed-request-never-applied")
 var famE6C11 = set("call-after-close", "exclusive-calls-overlap", "update-index-not-increasing", "ondisk-update-at-or-below-open-index",
 	"write-applied-twice", "replicas-applied-different-entries", "lookup-overlaps-update", "lookup-overlaps-recoverfromsnapshot",
 	"lookup-overlaps-close", "savesnapshot-overlaps-update", "savesnapshot-overlaps-recoverfromsnapshot", "savesnapshot-overlaps-close",
 	"update-overlaps-lookup", "completed-request-never-applied", "savesnapshot-overlaps-close")
-var famE6C12 = set("completed-with-foreign-result", "dropped-request-applied", "completed-request-never-applied", "no-terminal-result", "two-results")
+var famE6C12 = set("completed-with-foreign-result", "dropped-request-applied", "completed-request-never-applied", "no-terminal-result", "two-results",
+	"committed-then-dropped", "committed-notified-never-applied")
 
-var famE6C02 = set("replicas-applied-different-entries", "update-index-not-increasing", "write-applied-twice",
+var famE6C02 = set("replicas-applied-different-entries", "update-index-not-increasing", "write-applied-twice", "command-payload-altered",
 	"replica-state-differs-at-same-index", "ondisk-update-at-or-below-open-index", "snapshot-content-not-at-snapshot-index", "installed-snapshot-content-not-at-snapshot-index")
 var famE6C06 = set("stale-read", "read-returned-unapplied-value", "linearizability-violated", "read-no-terminal-result")
 
@@ -284,7 +311,7 @@ func streamUnderLoad(t *testing.T, name, prop string, family map[string]bool) {
 	runE6(t, e6Profile{name: name, prop: prop, family: family,
 		tune: func(t *rapid.T, p *Plan) {
 			p.Kind = KindOnDisk
-			p.NonVoting = false
+			p.NonVoting, p.Witness = false, false
 			p.Hosts = 3
 			p.Sessions = false
 			p.ReadPct = 5
@@ -426,7 +453,7 @@ func TestVF_C11_PlainSM(t *testing.T) {
 	runE6(t, e6Profile{name: "TestVF_C11_PlainSM", prop: "C11", family: famE6C11,
 		tune: func(t *rapid.T, p *Plan) {
 			p.Kind = KindRegular
-			p.NonVoting = false
+			p.NonVoting, p.Witness = false, false
 			p.Hosts = 3
 			p.SnapEntries = 5
 			p.ReadPct = 30
@@ -465,5 +492,51 @@ func TestVF_C12_Cluster(t *testing.T) {
 				}
 			}
 			return kinds >= 2
+		}})
+}
+
+var famE6C18 = set("non-full-member-acts-as-leader", "non-full-member-campaigns", "payload-sent-to-witness", "payload-saved-on-witness",
+	"full-snapshot-on-witness", "linearizability-violated", "replicas-applied-different-entries", "completed-request-never-applied")
+
+// C18 at the NodeHost level: shards with a non-voting member or a witness on real
+// NodeHosts. The non-voting member / the witness never campaigns and never acts as
+// a leader (every message that leaves a host is inspected), also when it is the
+// target of a leader transfer, when the leader is cut off or loses power and when
+// the only other full member is gone; a witness is sent and stores entry metadata
+// and membership changes only, never a snapshot image; and client visible behaviour
+// stays linearizable (a commit decided with the wrong quorum loses acknowledged
+// writes once the real majority takes over).
+func TestVF_C18_Cluster(t *testing.T) {
+	runE6(t, e6Profile{prop: "C18", family: famE6C18,
+		tune: func(t *rapid.T, p *Plan) {
+			if !p.NonVoting && !p.Witness {
+				if vfhelp.Pick(t, "role", 1) == 0 {
+					p.NonVoting = true
+					p.Hosts = 2 + vfhelp.PickN(t, "hostsnv2", 3)
+				} else {
+					p.Witness = true
+					p.Hosts = 3 + vfhelp.Pick(t, "hostsw2", 1)
+				}
+			}
+			special := p.Hosts - 1
+			if p.SnapEntries == 0 && vfhelp.Pick(t, "snap6", 1) == 1 {
+				p.SnapEntries = 6
+			}
+			v := vfhelp.Pick(t, "victim", p.Hosts-2)
+			p.Faults = append(p.Faults,
+				// the special member as transfer target, then the leader's side of the shard in trouble
+				Fault{Kind: FTransfer, A: vfhelp.Pick(t, "tfrom", p.Hosts-2), B: special, AfterMs: 5 + vfhelp.PickN(t, "tafter", 30)},
+				Fault{Kind: FIsolate, A: v, AfterMs: 5 + vfhelp.PickN(t, "isoafter", 40)},
+				Fault{Kind: FTransfer, A: vfhelp.Pick(t, "tfrom2", p.Hosts-2), B: special, AfterMs: 20 + vfhelp.PickN(t, "tafter2", 60)},
+				Fault{Kind: FHeal, AfterMs: 30 + vfhelp.PickN(t, "healafter", 80)})
+			if vfhelp.Pick(t, "pc", 1) == 1 {
+				p.Faults = append(p.Faults, Fault{Kind: FPowerCut, A: vfhelp.Pick(t, "pch", p.Hosts-1), AfterMs: 10 + vfhelp.PickN(t, "pcafter", 40)},
+					Fault{Kind: FRestart, AfterMs: 30 + vfhelp.PickN(t, "rsafter", 80)})
+			}
+		},
+		rule: "non-trivial = the non-voting member / witness joined the shard, and a full member was cut off or lost power while clients were writing (an election or a commit had to be decided without it)",
+		nontriv: func(res *Result) bool {
+			f := res.Flags
+			return f["nonvoting-joined"]+f["witness-joined"] > 0 && f["fault-isolate"]+f["fault-powercut"]+f["fault-partition"] > 0 && f["write-completed"] > 0
 		}})
 }
